@@ -128,3 +128,45 @@ Example example_case_ok :
     [];
     [EOp 3 {| okind := Gauge; oname := [97; 46]; obody := BDesc (Some 3) [100] |}]]%N.
 Proof. vm_compute. repeat split. Qed.
+
+Lemma route_lookup_exact routes k name :
+  (forall i, route (build routes 0 tries0) k name = Some i <-> chosen routes k name i) /\
+  (route (build routes 0 tries0) k name = None <-> forall i p, ~ candidate routes k name i p).
+Proof. split; [intros i; apply route_some | apply route_none]. Qed.
+
+(* case-insensitive occurrence stated without any folding function: the name contains a block
+   that equals the pattern up to the case of ASCII letters *)
+Definition same_letter (a b : N) : Prop :=
+  (a = b \/ (65 <= a <= 90 /\ b = a + 32) \/ (65 <= b <= 90 /\ a = b + 32))%N.
+
+Lemma ascii_lower_eq_iff a b : ascii_lower a = ascii_lower b <-> same_letter a b.
+Proof.
+  destruct (ascii_fold_only a) as [_ ->]. destruct (ascii_fold_only b) as [_ ->]. unfold same_letter.
+  destruct ((65 <=? a) && (a <=? 90))%N eqn:Ea, ((65 <=? b) && (b <=? 90))%N eqn:Eb;
+    rewrite ?andb_true_iff, ?andb_false_iff, ?N.leb_le, ?N.leb_gt in *; lia.
+Qed.
+
+Lemma map_ascii_lower_eq_iff a : forall b, map ascii_lower a = map ascii_lower b <-> Forall2 same_letter a b.
+Proof.
+  induction a as [|x a IH]; intros [|y b]; simpl; split; intros H; try discriminate; try constructor;
+    try (inversion H; fail).
+  - inversion H. apply ascii_lower_eq_iff. assumption.
+  - inversion H. apply IH. assumption.
+  - inversion H; subst. f_equal; [apply ascii_lower_eq_iff; assumption | apply IH; assumption].
+Qed.
+
+Lemma dropped_case_insensitive pats name :
+  dropped pats true name <->
+  exists pat pre mid suf, In pat pats /\ name = pre ++ mid ++ suf /\ Forall2 same_letter pat mid.
+Proof.
+  rewrite dropped_unfold. unfold folded. split.
+  - intros [pat [pre [suf [Hin E]]]].
+    apply map_eq_app in E as [l1 [l2 [-> [E1 E2]]]]. apply map_eq_app in E2 as [l3 [l4 [-> [E3 E4]]]].
+    exists pat, l1, l3, l4. repeat split; auto. apply map_ascii_lower_eq_iff. symmetry. exact E3.
+  - intros [pat [pre [mid [suf [Hin [-> Hs]]]]]]. exists pat, (map ascii_lower pre), (map ascii_lower suf).
+    split; auto. rewrite !map_app. f_equal. f_equal. symmetry. apply map_ascii_lower_eq_iff. exact Hs.
+Qed.
+
+Lemma dropped_case_sensitive pats name :
+  dropped pats false name <-> exists pat pre suf, In pat pats /\ name = pre ++ pat ++ suf.
+Proof. rewrite dropped_unfold. reflexivity. Qed.
